@@ -109,6 +109,11 @@ def cmd_replay(path: str) -> int:
     else:
         res = campaign.strip(runner.run_spec(spec))
     want = rec.get('violation') or {}
+    ev = res.get('earlier_violation')
+    if rec.get('address_dependent') and res['status'] != 'violation' and ev is not None and ev['result']['violation']['clause'] == want.get('clause'):
+        out(f'replay: the final run passed this time, but run {ev["position"]} of the recorded sequence violates the same clause: ' + json.dumps(ev['result']['violation'], default=str)[:600])
+        out(f'VIOLATION property={PROPERTY} replay={os.path.abspath(path)}')
+        return 1
     out(f'replay: status={res["status"]} digest={res["digest"]} recorded={rec.get("digest")}')
     if res['status'] == 'harness':
         out('HARNESS-ERROR during replay:\n' + (res['harness_error'] or ''))
@@ -118,6 +123,12 @@ def cmd_replay(path: str) -> int:
         return 0
     v = res['violation']
     out('replay: ' + json.dumps(v, default=str))
+    if v['clause'] == want.get('clause') and (res['digest'] != rec.get('digest') or v['seq'] != want.get('seq')) and rec.get('address_dependent'):
+        # the same clause fails, at another event: the failure depends on something no simulator controls
+        # (memory addresses reused by the allocator, typically).  Still a reproduction of the violation.
+        out('replay: the same clause is violated, at a different event than recorded (the failure is not a pure function of the schedule)')
+        out(f'VIOLATION property={PROPERTY} replay={os.path.abspath(path)}')
+        return 1
     now = git_state()
     same_code = rec.get('tree', {}).get('furax_diff_sha') == now.get('furax_diff_sha') and rec.get('tree', {}).get('furax_head') == now.get('furax_head') and rec.get('tree', {}).get('src_sha') == now.get('src_sha')
     if res['digest'] != rec.get('digest') or v['clause'] != want.get('clause') or v['seq'] != want.get('seq'):
@@ -211,41 +222,45 @@ def cmd_campaign(tier: str, verif_seed: int, workers: int) -> int:
         # A worker that dies abruptly (a crash inside native JAX/XLA code is the only way seen) gives
         # no verdict for its chunk: the pool is rebuilt and the unfinished chunks are run again, at most
         # three times; the crashes are counted in the evidence.  More than that is a harness error.
-        while tasks and harness_problem is None and unknown_bad is None:
-            futures = {pool.submit(fn, args): (fn, args) for fn, args in tasks}
-            finished: set = set()
-            broke = False
-            for fut in concurrent.futures.as_completed(list(futures)):
-                try:
-                    part = fut.result()
-                except concurrent.futures.process.BrokenProcessPool:
-                    broke = True
+        def explore() -> None:
+            nonlocal pool, tasks, harness_problem, unknown_bad, worker_crashes
+            while tasks and harness_problem is None and unknown_bad is None:
+                futures = {pool.submit(fn, args): (fn, args) for fn, args in tasks}
+                finished: set = set()
+                broke = False
+                for fut in concurrent.futures.as_completed(list(futures)):
+                    try:
+                        part = fut.result()
+                    except concurrent.futures.process.BrokenProcessPool:
+                        broke = True
+                        break
+                    finished.add(fut)
+                    bad = part['bad']
+                    part['bad'] = None
+                    campaign.merge_agg(total, part)
+                    if bad is None:
+                        continue
+                    if bad['result']['status'] == 'harness':
+                        harness_problem = f'HARNESS-ERROR in run {bad["sub"]}#{bad["index"]} seed={bad["spec"]["seed"]}:\n{bad["result"]["harness_error"]}'
+                        break
+                    hit = match_known(known, bad['result']['violation'], bad['spec'])
+                    if hit is not None:
+                        known_hits.append((hit, bad))
+                        continue
+                    unknown_bad = bad
                     break
-                finished.add(fut)
-                bad = part['bad']
-                part['bad'] = None
-                campaign.merge_agg(total, part)
-                if bad is None:
-                    continue
-                if bad['result']['status'] == 'harness':
-                    harness_problem = f'HARNESS-ERROR in run {bad["sub"]}#{bad["index"]} seed={bad["spec"]["seed"]}:\n{bad["result"]["harness_error"]}'
+                tasks = [t for f, t in futures.items() if f not in finished]
+                if not broke:
                     break
-                hit = match_known(known, bad['result']['violation'], bad['spec'])
-                if hit is not None:
-                    known_hits.append((hit, bad))
-                    continue
-                unknown_bad = bad
-                break
-            if not broke:
-                break
-            worker_crashes += 1
-            tasks = [t for f, t in futures.items() if f not in finished]
-            out(f'note: a worker process died abruptly (crash #{worker_crashes}); rebuilding the pool and re-running {len(tasks)} unfinished chunk(s)')
-            campaign.kill_pool(pool)
-            if worker_crashes > 3:
-                harness_problem = 'HARNESS-ERROR: worker processes keep dying abruptly; see stderr for the faulthandler dumps'
-                break
-            pool = campaign.make_pool(workers)
+                worker_crashes += 1
+                out(f'note: a worker process died abruptly (crash #{worker_crashes}); rebuilding the pool and re-running {len(tasks)} unfinished chunk(s)')
+                campaign.kill_pool(pool)
+                if worker_crashes > 3:
+                    harness_problem = 'HARNESS-ERROR: worker processes keep dying abruptly; see stderr for the faulthandler dumps'
+                    break
+                pool = campaign.make_pool(workers)
+
+        explore()
     finally:
         campaign.kill_pool(pool)
 
@@ -255,92 +270,154 @@ def cmd_campaign(tier: str, verif_seed: int, workers: int) -> int:
     violations = 0
     minimised = None
 
-    if unknown_bad is not None and harness_problem is None:
-        violations = 1
-        spec = unknown_bad['spec']
-        v = unknown_bad['result']['violation']
-        clause = v['clause']
-        out(f'violation: clause={clause} seed={spec["seed"]} sub={unknown_bad["sub"]}#{unknown_bad["index"]} detail={json.dumps(v["detail"], default=str)[:500]}')
-        os.makedirs(REPLAYS, exist_ok=True)
-        base = os.path.join(REPLAYS, f'C19-{spec["seed"]}-{clause}')
-        # every execution from here on is the first run of a brand-new process, so that a replay in a
-        # fresh interpreter is the same execution
-        first = campaign.run_fresh([spec], parallel=1)[0]
-        reproduced = first['status'] == 'violation' and first['violation']['clause'] == clause
-        if reproduced:
-            with open(base + '.original.json', 'w') as f:
-                json.dump({'version': 1, 'property': PROPERTY, 'spec': spec, 'violation': first['violation'], 'digest': first['digest'], 'tree': tree}, f, indent=1, default=str)
-            screener = campaign.Screener(workers)
-            try:
-                small, res, used = shrink.minimise(spec, clause, lambda specs: campaign.run_fresh(specs, parallel=workers), budget=400 if tier != 'smoke' else 200, batch=workers, screen=screener)
-            finally:
-                screener.close()
-            if res is None:
-                small, res = spec, first
-            minimised = {'statements_before': program.count_statements(spec), 'statements_after': program.count_statements(small), 'executions_each_in_a_new_process': used}
-            record = {'version': 1, 'property': PROPERTY, 'seed': spec['seed'], 'spec': small, 'violation': res['violation'], 'digest': res['digest'], 'tree': tree, 'minimised': minimised}
-        else:
-            out('violation did not reproduce in a brand-new process on its own; replaying the worker history that led to it')
-            res = campaign.run_fresh_history(unknown_bad['history'], spec)
-            if res['status'] == 'violation' and res['violation']['clause'] == clause:
-                n_before = len(campaign.flatten_history(unknown_bad['history'], spec['seed']))
-                hist, hres, used = campaign.minimise_history(unknown_bad['history'], spec, clause, parallel=workers)
-                if hres is not None:
-                    res = hres
-                small = spec
-                stm_before = program.count_statements(spec)
-                if len(hist) <= 3:
-                    # few earlier runs left: minimise the failing run and then each earlier run, always
-                    # executing <earlier runs> + <failing run> together in a brand-new process
-                    hist_specs = list(campaign._history_specs(hist, spec['seed']))
-                    for h in hist_specs:
-                        h['decisions'] = None if h['world'] == 'task' else h.get('decisions')
+    unreproducible: list = []
 
-                    def exec_final(cands):
-                        return campaign.run_fresh_histories([([['specs', hist_specs]], c) for c in cands], workers)
-
-                    small2, res2, u2 = shrink.minimise(spec, clause, exec_final, budget=200, batch=workers)
-                    used += u2
-                    if res2 is not None:
-                        small, res = small2, res2
-                    for k in range(len(hist_specs)):
-
-                        def exec_prior(cands, k=k):
-                            cases = [([['specs', hist_specs[:k] + [c] + hist_specs[k + 1 :]]], small) for c in cands]
-                            return campaign.run_fresh_histories(cases, workers)
-
-                        hk, resk, uk = shrink.minimise(hist_specs[k], clause, exec_prior, budget=120, batch=workers)
-                        used += uk
-                        if resk is not None:
-                            hist_specs[k], res = hk, resk
-                    hist = [['specs', hist_specs]]
-                    spec = small
-                record = {'version': 1, 'property': PROPERTY, 'seed': spec['seed'], 'spec': spec, 'history': hist, 'violation': res['violation'], 'digest': res['digest'], 'tree': tree,
-                          'note': 'the violation needs process state left behind by earlier runs; the replay re-executes them first, in a fresh interpreter'}
-                n_after = sum(len(h[1]) if h[0] == 'specs' else len(h[4]) for h in hist)
-                minimised = {'statements_before': stm_before, 'statements_after': program.count_statements(spec), 'history_runs_before': n_before, 'history_runs_after': n_after,
-                             'history_statements_after': sum(program.count_statements(h) for e in hist if e[0] == 'specs' for h in e[1]), 'executions_each_in_a_new_process': used + 1}
+    def settle() -> None:
+        nonlocal rc, replay_path, violations, minimised
+        if unknown_bad is not None and harness_problem is None:
+            violations = 1
+            spec = unknown_bad['spec']
+            v = unknown_bad['result']['violation']
+            clause = v['clause']
+            out(f'violation: clause={clause} seed={spec["seed"]} sub={unknown_bad["sub"]}#{unknown_bad["index"]} detail={json.dumps(v["detail"], default=str)[:500]}')
+            os.makedirs(REPLAYS, exist_ok=True)
+            base = os.path.join(REPLAYS, f'C19-{spec["seed"]}-{clause}')
+            # every execution from here on is the first run of a brand-new process, so that a replay in a
+            # fresh interpreter is the same execution
+            # (two attempts: a failure that depends on memory addresses -- an id()-keyed cache in the code
+            # under test, say -- shows up in most but not all fresh processes)
+            firsts = campaign.run_fresh([spec, spec], parallel=2)
+            first = next((r for r in firsts if r['status'] == 'violation' and r['violation']['clause'] == clause), firsts[0])
+            reproduced = first['status'] == 'violation' and first['violation']['clause'] == clause
+            if reproduced:
+                with open(base + '.original.json', 'w') as f:
+                    json.dump({'version': 1, 'property': PROPERTY, 'spec': spec, 'violation': first['violation'], 'digest': first['digest'], 'tree': tree}, f, indent=1, default=str)
+                screener = campaign.Screener(workers)
+                try:
+                    small, res, used = shrink.minimise(spec, clause, lambda specs: campaign.run_fresh(specs, parallel=workers), budget=400 if tier != 'smoke' else 200, batch=workers, screen=screener)
+                finally:
+                    screener.close()
+                if res is None:
+                    small, res = spec, first
+                minimised = {'statements_before': program.count_statements(spec), 'statements_after': program.count_statements(small), 'executions_each_in_a_new_process': used}
+                record = {'version': 1, 'property': PROPERTY, 'seed': spec['seed'], 'spec': small, 'violation': res['violation'], 'digest': res['digest'], 'tree': tree, 'minimised': minimised,
+                          'address_dependent': firsts[0]['digest'] != firsts[1]['digest']}
             else:
-                harness_problem = f'UNREPRODUCIBLE: a violation (clause {clause}, seed {spec["seed"]}) was observed once but neither the run alone nor its worker history reproduces it'
-                record = None
-                small = spec
-        if record is not None:
-            hit = match_known(known, record['violation'], small)
-            replay_path = base + '.json'
-            with open(replay_path, 'w') as f:
-                json.dump(record, f, indent=1, default=str)
-            out(f'minimised: {json.dumps(minimised)}')
-            out('minimal programs: ' + json.dumps(small['programs']) + (' cancels: ' + json.dumps(small['cancels']) if small.get('cancels') else ''))
-            for e in record.get('history', []):
-                if e[0] == 'specs':
-                    for h in e[1]:
-                        out('  after earlier run: ' + json.dumps(h['programs']))
-            out('violation: ' + json.dumps(record['violation'], default=str)[:1500])
+                out('violation did not reproduce in a brand-new process on its own; replaying the worker history that led to it')
+                res = campaign.run_fresh_history(unknown_bad['history'], spec)
+                ev = res.get('earlier_violation')
+                if not (res['status'] == 'violation' and res['violation']['clause'] == clause) and ev is not None and ev['result']['violation']['clause'] == clause:
+                    # The run itself did not fail again, but an earlier run of the same worker history failed
+                    # with the same clause in the brand-new process: the failure moves around (it depends on
+                    # memory addresses or the like) yet the sequence reliably produces it.  The replay file is
+                    # that sequence up to its first failing run.
+                    out(f'note: in the brand-new process the same clause failed earlier in the history (run {ev["position"]}); taking that run')
+                    flat = campaign.flatten_history(unknown_bad['history'], spec['seed'])[: ev['position'] - 1]
+                    record = {'version': 1, 'property': PROPERTY, 'seed': ev['spec']['seed'], 'spec': ev['spec'], 'history': flat, 'violation': ev['result']['violation'], 'digest': ev['result']['digest'], 'tree': tree,
+                              'address_dependent': True,
+                              'note': 'the failure is not a pure function of the schedule (it moves between runs of the same sequence); the replay re-executes the sequence and accepts a violation of the same clause in any of its runs'}
+                    small = ev['spec']
+                    minimised = {'statements_before': program.count_statements(spec), 'statements_after': program.count_statements(small), 'history_runs_after': len(flat), 'executions_each_in_a_new_process': 3}
+                elif res['status'] == 'violation' and res['violation']['clause'] == clause:
+                    n_before = len(campaign.flatten_history(unknown_bad['history'], spec['seed']))
+                    hist, hres, used = campaign.minimise_history(unknown_bad['history'], spec, clause, parallel=workers)
+                    if hres is not None:
+                        res = hres
+                    small = spec
+                    stm_before = program.count_statements(spec)
+                    if len(hist) <= 3:
+                        # few earlier runs left: minimise the failing run and then each earlier run, always
+                        # executing <earlier runs> + <failing run> together in a brand-new process
+                        hist_specs = list(campaign._history_specs(hist, spec['seed']))
+                        for h in hist_specs:
+                            h['decisions'] = None if h['world'] == 'task' else h.get('decisions')
+
+                        def exec_final(cands):
+                            return campaign.run_fresh_histories([([['specs', hist_specs]], c) for c in cands], workers)
+
+                        small2, res2, u2 = shrink.minimise(spec, clause, exec_final, budget=200, batch=workers)
+                        used += u2
+                        if res2 is not None:
+                            small, res = small2, res2
+                        for k in range(len(hist_specs)):
+
+                            def exec_prior(cands, k=k):
+                                cases = [([['specs', hist_specs[:k] + [c] + hist_specs[k + 1 :]]], small) for c in cands]
+                                return campaign.run_fresh_histories(cases, workers)
+
+                            hk, resk, uk = shrink.minimise(hist_specs[k], clause, exec_prior, budget=120, batch=workers)
+                            used += uk
+                            if resk is not None:
+                                hist_specs[k], res = hk, resk
+                        hist = [['specs', hist_specs]]
+                        spec = small
+                    record = {'version': 1, 'property': PROPERTY, 'seed': spec['seed'], 'spec': spec, 'history': hist, 'violation': res['violation'], 'digest': res['digest'], 'tree': tree,
+                              'note': 'the violation needs process state left behind by earlier runs; the replay re-executes them first, in a fresh interpreter'}
+                    n_after = sum(len(h[1]) if h[0] == 'specs' else len(h[4]) for h in hist)
+                    minimised = {'statements_before': stm_before, 'statements_after': program.count_statements(spec), 'history_runs_before': n_before, 'history_runs_after': n_after,
+                                 'history_statements_after': sum(program.count_statements(h) for e in hist if e[0] == 'specs' for h in e[1]), 'executions_each_in_a_new_process': used + 1}
+                else:
+                    unreproducible.append(f'UNREPRODUCIBLE: a violation (clause {clause}, seed {spec["seed"]}, {json.dumps(v["detail"], default=str)[:300]}) was observed once but neither the run alone nor its worker history reproduces it in a brand-new process')
+                    violations = 0
+                    record = None
+                    small = spec
+            if record is not None:
+                hit = match_known(known, record['violation'], small)
+                replay_path = base + '.json'
+                with open(replay_path, 'w') as f:
+                    json.dump(record, f, indent=1, default=str)
+                out(f'minimised: {json.dumps(minimised)}')
+                out('minimal programs: ' + json.dumps(small['programs']) + (' cancels: ' + json.dumps(small['cancels']) if small.get('cancels') else ''))
+                for e in record.get('history', []):
+                    if e[0] == 'specs':
+                        for h in e[1]:
+                            out('  after earlier run: ' + json.dumps(h['programs']))
+                out('violation: ' + json.dumps(record['violation'], default=str)[:1500])
+                if hit is not None:
+                    known_hits.append((hit, unknown_bad))
+                    violations = 0
+                else:
+                    rc = 1
+
+
+    # A violation that cannot be reproduced in a brand-new process (it depended on memory addresses or on
+    # state a broken implementation left in its worker) is not a verdict: the campaign goes on with the
+    # chunks that have not run yet, looking for one that can be replayed; if none turns up the check ends
+    # with exit 2, never 0.
+    for _attempt in range(4):
+        settle()
+        if rc == 1 or unknown_bad is None or harness_problem is not None:
+            break
+        if not unreproducible or len(unreproducible) <= _attempt:
+            break
+        out(unreproducible[-1])
+        if _attempt == 0:
+            # look for a self-contained instance first: runs that create, apply and release many inverses
+            # (or keep many alive), each as the first and only run of a brand-new process
+            probes = []
+            for k in range(2 * workers):
+                prof = {'faults': False, 'p_heavy': 1.0 if k % 4 else 0.0, 'p_thread': 0.7, 'force': 'churn' if k % 2 else 'hoard'}
+                probes.append(program.generate(campaign.run_seed_of(verif_seed, 'probe', k), prof))
+            results = campaign.run_fresh(probes, parallel=workers)
+            hit = next(((sp, r) for sp, r in zip(probes, results) if r['status'] == 'violation'), None)
+            out(f'note: {len(probes)} self-contained probe runs (many inverses created, applied, released) in brand-new processes: ' + ('one of them violates the property' if hit else 'all clean'))
             if hit is not None:
-                known_hits.append((hit, unknown_bad))
-                violations = 0
-            else:
-                rc = 1
+                sp, r = hit
+                sp['decisions'] = r.get('decisions')
+                unknown_bad = {'spec': sp, 'result': r, 'sub': 'probe', 'index': 0, 'history': []}
+                continue
+        if not tasks or _attempt == 3:
+            break
+        out(f'note: continuing with the {len(tasks)} chunk(s) that have not run yet')
+        unknown_bad = None
+        pool = campaign.make_pool(workers)
+        try:
+            explore()
+        finally:
+            campaign.kill_pool(pool)
+    run_wall = time.time() - t_start
+    if unreproducible and rc != 1 and harness_problem is None:
+        harness_problem = unreproducible[0]
 
     printed: set = set()
     for hit, bad in known_hits:
